@@ -396,6 +396,14 @@ func (e *c09Env) cleanAndCheck(rng *kit.RNG, full bool) (removed int, ok bool) {
 		return 0, false
 	}
 	e.cleans++
+	return e.judgeClean(rng, pre, full)
+}
+
+// judgeClean applies the whole oracle to the state the log is in now, given
+// the raw parse pre of the segment files as they were before the retention
+// pass(es) being judged (cleanAndCheck: the one Clean it just ran; the faulted
+// unit: an interrupted pass plus the pass that completed it).
+func (e *c09Env) judgeClean(rng *kit.RNG, pre []c09Seg, full bool) (removed int, ok bool) {
 	post, ok := e.scan("after Clean")
 	if !ok {
 		return 0, false
